@@ -132,6 +132,7 @@ type config struct {
 	manual               bool
 	retries              bool
 	comp                 string
+	okStatus             int  // what the upstream answers when it accepts a body (0 = 202); every 2xx is a success
 	fromConfig           bool // built from an "http-transport" configuration block, as the server does
 }
 
@@ -208,10 +209,14 @@ func newRig(t vt.TB, c config) *rigT {
 		case "neterr":
 			return fakes.Reply{Err: fakes.ErrTransport}
 		}
-		if cut {
-			return fakes.Reply{Status: 202, Body: []byte("partial"), BodyErr: true}
+		ok := c.okStatus
+		if ok == 0 {
+			ok = 202
 		}
-		return fakes.Reply{Status: 202}
+		if cut {
+			return fakes.Reply{Status: ok, Body: []byte("partial"), BodyErr: true}
+		}
+		return fakes.Reply{Status: ok}
 	}
 	ctx, cancel := context.WithCancel(stats.NewContext(clock.Context(context.Background(), r.clk), r.st))
 	r.cancel, r.done = cancel, make(chan struct{})
@@ -247,11 +252,18 @@ func (r *rigT) trigger(t vt.TB, manual bool) {
 	atomic.AddInt32(&r.triggers, 1)
 	if manual {
 		done := make(chan struct{})
-		go func() { r.fc.Flush(); close(done) }()
+		go func() {
+			// a flush that is only taken after the case has been given up meets a closed consolidator
+			defer func() { _ = recover() }()
+			r.fc.Flush()
+			close(done)
+		}()
 		select {
 		case <-done:
-		case <-time.After(30 * time.Second):
-			vt.Fail(t, "C15:flush-not-taken", "manual flush was not taken by the forwarder within 30s")
+		case <-time.After(time.Duration(atomic.LoadInt64(&flushPatienceMs)) * time.Millisecond):
+			// once a flush was not taken, further cases (rapid shrinking the first one) wait 2 s instead of 30
+			atomic.StoreInt64(&flushPatienceMs, 2000)
+			vt.Fail(t, "C15:flush-not-taken", "manual flush was not taken by the forwarder within its patience (30s, 2s after a first failure)")
 		}
 		return
 	}
@@ -273,6 +285,8 @@ type piece struct {
 }
 
 var uniq int64
+
+var flushPatienceMs int64 = 30000
 
 // uniqueMap builds a map whose datapoints are globally unique (timer values, set members) or carry unique mass (counters).
 func uniqueMap(t *rapid.T, headerTags bool, bits map[string]uint) *gostatsd.MetricMap {
@@ -381,7 +395,8 @@ func TestForwarderDeliveryFaults(t *testing.T) { runForwarder(t, true) }
 func runForwarder(t *testing.T, faults bool) {
 	rapid.Check(t, func(t *rapid.T) {
 		c := config{slots: rapid.IntRange(1, 4).Draw(t, "slots"), merge: rapid.IntRange(1, 3).Draw(t, "concurrent-merge"), maxReq: rapid.IntRange(1, 4).Draw(t, "max-requests"),
-			manual: rapid.Bool().Draw(t, "manual-flush"), retries: true, comp: rapid.SampledFrom([]string{"none", "zlib", "lz4"}).Draw(t, "compression")}
+			manual: rapid.Bool().Draw(t, "manual-flush"), retries: true, comp: rapid.SampledFrom([]string{"none", "zlib", "lz4"}).Draw(t, "compression"),
+			okStatus: rapid.SampledFrom([]int{202, 202, 200, 204, 201, 206, 226, 299}).Draw(t, "accepted-status")}
 		if !c.manual {
 			c.headers = rapid.SampledFrom([][]string{nil, {"region"}, {"region", "service"}, {"service"}, {"tenant_id"}, {"region", "tenant_id"}}).Draw(t, "dynamic-headers")
 		}
